@@ -789,10 +789,22 @@ func (g *Graph) Build(metaData *MetaData, varPool *VarPool) (*Injector, error) {
 		return nil, errors.New("no return value provider found")
 	}
 
+	// When the requested type is not supplied by any provider it is itself an injector
+	// argument: no provider has to be called and there are no pools to schedule.
+	hasProviderNode := false
+	for _, n := range g.nodes {
+		if n.providerSpec != nil {
+			hasProviderNode = true
+			break
+		}
+	}
+
 	var err error
-	injector.Stmts, err = g.buildStmts(pools, nodeProvidedNodes, initialProvidedNodes)
-	if err != nil {
-		return nil, fmt.Errorf("build statements: %w", err)
+	if hasProviderNode {
+		injector.Stmts, err = g.buildStmts(pools, nodeProvidedNodes, initialProvidedNodes)
+		if err != nil {
+			return nil, fmt.Errorf("build statements: %w", err)
+		}
 	}
 
 	// Inject context.Context argument if async providers exist
